@@ -55,24 +55,26 @@ type Case struct {
 	WatchS int64  `json:"watch_s"` // 0 = until exp + 2.2 s ; else seconds after admission
 
 	// observed (absolute ns / s)
-	TLo        int64   `json:"t_lo"`
-	THi        int64   `json:"t_hi"`
-	Nbf        int64   `json:"nbf"`
-	Exp        int64   `json:"exp"`
-	WatchUntil int64   `json:"watch_until"`
-	Accepted   bool    `json:"accepted"`
-	Dropped    int64   `json:"dropped"`         // server removed the connection at (0 = not seen)
-	ClientErr  int64   `json:"client_err"`      // the client's read failed at (0 = not seen / not reading)
-	SockClosed bool    `json:"sock_closed"`     // after the watch the socket answered a read with an error, not a timeout
-	LastFrom   int64   `json:"last_from_probe"` // partner last received a probe message at
-	LastTo     int64   `json:"last_to_probe"`   // probe last received a partner message at
-	UPongAt    []int64 `json:"upong_at"`        // unsolicited pongs the client sent
-	CPingAt    []int64 `json:"cping_at"`        // pings the client sent
-	CCloseAt   int64   `json:"cclose_at"`       // the client sent a close frame (TCP kept open) at
-	CPings     int     `json:"cpings"`          // pings the client sent (all of them; cping_at keeps at most 60 times)
-	PongsBack  int     `json:"pongs_back"`      // pongs the relay sent in answer to the client's pings
-	DataAt     []int64 `json:"data_at"`         // when messages were delivered to the probe (at most 200 kept)
-	Note       string  `json:"note,omitempty"`
+	TLo           int64   `json:"t_lo"`
+	THi           int64   `json:"t_hi"`
+	Nbf           int64   `json:"nbf"`
+	Exp           int64   `json:"exp"`
+	WatchUntil    int64   `json:"watch_until"`
+	Accepted      bool    `json:"accepted"`
+	Dropped       int64   `json:"dropped"`         // server removed the connection at (0 = not seen)
+	ClientErr     int64   `json:"client_err"`      // the client's read failed at (0 = not seen / not reading)
+	SockClosed    bool    `json:"sock_closed"`     // after the watch the socket answered a read with an error, not a timeout
+	LastFrom      int64   `json:"last_from_probe"` // partner last received a probe message at
+	LastTo        int64   `json:"last_to_probe"`   // probe last received a partner message at
+	UPongAt       []int64 `json:"upong_at"`        // unsolicited pongs the client sent
+	CPingAt       []int64 `json:"cping_at"`        // pings the client sent
+	CCloseAt      int64   `json:"cclose_at"`       // the client sent a close frame (TCP kept open) at
+	EvictAt       int64   `json:"evict_at"`        // the hub evicted this (stalled) reader as slow at
+	PartnerClosed int64   `json:"partner_closed"`  // the partner (a 1 h token, possibly of the same booking) lost its connection at (0 = never)
+	CPings        int     `json:"cpings"`          // pings the client sent (all of them; cping_at keeps at most 60 times)
+	PongsBack     int     `json:"pongs_back"`      // pongs the relay sent in answer to the client's pings
+	DataAt        []int64 `json:"data_at"`         // when messages were delivered to the probe (at most 200 kept)
+	Note          string  `json:"note,omitempty"`
 }
 
 func (c Case) coq() string {
@@ -90,7 +92,7 @@ func (c Case) coq() string {
 	}
 	return lib.App("mkcase", lib.Z(c.TLo), lib.Z(c.THi), lib.Z(c.Nbf), lib.Z(c.Exp),
 		lib.Bool(c.Other == ""), lib.Bool(c.Pongs), lib.List(data), zs(c.UPongAt), zs(c.CPingAt), lib.Z(int64(c.PongsBack)),
-		lib.OptionOf(c.CCloseAt != 0, lib.Z(c.CCloseAt)), lib.Z(c.WatchUntil), lib.Z(c.LastFrom), lib.Z(c.LastTo), lib.Bool(c.Accepted), closed)
+		lib.OptionOf(c.CCloseAt != 0, lib.Z(c.CCloseAt)), lib.OptionOf(c.EvictAt != 0, lib.Z(c.EvictAt)), lib.Bool(c.PartnerClosed != 0), lib.Z(c.WatchUntil), lib.Z(c.LastFrom), lib.Z(c.LastTo), lib.Bool(c.Accepted), closed)
 }
 
 // ---------------------------------------------------------------- the relay under test
@@ -281,10 +283,15 @@ func runCase(r *rig, idx int, c *Case, tag string) {
 	var pmu sync.Mutex
 	var lastFrom, lastTo, clientErr int64 // written by the reader goroutines under pmu
 	var dataAt []int64
+	var partnerClosed, ending int64
+	defer atomic.StoreInt64(&ending, 1)
 	go func() { // partner reader: records when something from the probe arrives
 		for {
 			_, data, err := partner.ReadMessage()
 			if err != nil {
+				if atomic.LoadInt64(&ending) == 0 {
+					atomic.StoreInt64(&partnerClosed, time.Now().UnixNano()) // not by us: the relay ended the partner's connection
+				}
 				return
 			}
 			if len(data) > 0 && data[0] == 'P' {
@@ -338,7 +345,7 @@ func runCase(r *rig, idx int, c *Case, tag string) {
 	time.Sleep(time.Until(time.Unix(s0, int64(c.PhaseMs)*1e6)))
 
 	c.TLo = time.Now().UnixNano()
-	probe, err := r.dial(dialTopic, code, c.Mode == "stall")
+	probe, err := r.dial(dialTopic, code, c.Mode == "stall" || c.Mode == "stallevict")
 	if err != nil {
 		c.Note = "probe dial failed: " + err.Error()
 		c.THi = time.Now().UnixNano()
@@ -386,7 +393,7 @@ func runCase(r *rig, idx int, c *Case, tag string) {
 		probe.SetCloseHandler(func(int, string) error { return nil })
 	}
 	// probe reader (not in stall mode)
-	if c.Mode != "stall" && c.Mode != "frozen" {
+	if c.Mode != "stall" && c.Mode != "frozen" && c.Mode != "stallevict" {
 		go func() {
 			for {
 				_, data, err := probe.ReadMessage()
@@ -507,6 +514,29 @@ func runCase(r *rig, idx int, c *Case, tag string) {
 			pwrite([]byte("P" + strconv.Itoa(k)))
 			time.Sleep(100 * time.Millisecond)
 		}
+	case "stallevict":
+		// the probe never reads and the partner keeps pushing until the hub evicts the probe as a slow
+		// reader (queue full behind a blocked write); the probe then goes on sending: its expiry falls
+		// into the window in which its writer is still inside the blocked write (up to writeWait)
+		big := make([]byte, 64*1024)
+		big[0] = 'S'
+		for k := 0; k < 900 && time.Now().Before(until); k++ {
+			if r.after(r.dropped, bid, c.TLo) != 0 {
+				break
+			}
+			psend(big)
+		}
+		for w := 0; w < 100 && r.after(r.dropped, bid, c.TLo) == 0; w++ {
+			time.Sleep(10 * time.Millisecond)
+		}
+		c.EvictAt = r.after(r.dropped, bid, c.TLo)
+		if c.EvictAt == 0 {
+			c.Note = "flood did not get the stalled reader evicted"
+		}
+		for k := 0; time.Now().Before(until); k++ {
+			pwrite([]byte("P" + strconv.Itoa(k)))
+			time.Sleep(100 * time.Millisecond)
+		}
 	case "burst":
 		// the partner sends 60 messages of 1 KB back to back every 10 ms: the probe's queue in the relay
 		// is often not empty; the probe itself sends a message every 100 ms
@@ -547,7 +577,17 @@ func runCase(r *rig, idx int, c *Case, tag string) {
 		c.Dropped = 0 // after the watch: not part of the observation
 	}
 	// is the socket really closed? (a read must fail with something else than a timeout)
-	if c.Mode == "stall" || c.Mode == "frozen" {
+	if c.Mode == "stallevict" {
+		// the path to this client is clogged; data sent to a socket the relay has closed is answered
+		// with a reset, so a following write fails
+		for n := 0; n < 6 && !c.SockClosed; n++ {
+			probe.SetWriteDeadline(time.Now().Add(200 * time.Millisecond))
+			if err := probe.WriteMessage(websocket.BinaryMessage, []byte("x")); err != nil {
+				c.SockClosed = true
+			}
+			time.Sleep(100 * time.Millisecond)
+		}
+	} else if c.Mode == "stall" || c.Mode == "frozen" {
 		deadline := time.Now().Add(1500 * time.Millisecond)
 		probe.SetReadDeadline(deadline)
 		for {
@@ -568,6 +608,7 @@ func runCase(r *rig, idx int, c *Case, tag string) {
 	<-behaveDone
 	c.UPongAt, c.CPingAt, c.CCloseAt, c.PongsBack = upongAt, cpingAt, ccloseAt, int(atomic.LoadInt64(&pongsBack))
 	c.CPings = int(atomic.LoadInt64(&cpings))
+	c.PartnerClosed = atomic.LoadInt64(&partnerClosed)
 	pmu.Unlock()
 }
 
@@ -595,6 +636,11 @@ func gen(rng *lib.Rng, tier string, n int) []Case {
 	for i, via := range []string{"api", "api-after-long", "api-before-long", "api-after-long", "api-before-long", "api"} {
 		cs = append(cs, Case{Kind: "life", Mode: []string{"idle", "busy"}[i%2], Via: via, PhaseMs: []int{150, 500, 850}[i%3] + rng.Range(-30, 30),
 			NbfOff: -int64(rng.Range(1, 3)), ExpOff: int64(2 + i%3), Pongs: true})
+	}
+	// a stalled reader that the hub evicts as slow, whose token expires while its writer is still inside
+	// the blocked write: expiry must still close the socket and stop what it sends from being relayed
+	for i := 0; i < 3; i++ {
+		cs = append(cs, Case{Kind: "life", Mode: "stallevict", Via: []string{"", "api", ""}[i], PhaseMs: 200 + 250*i, NbfOff: -1, ExpOff: int64(2 + i), Pongs: true})
 	}
 	// a client that sends keep-alive pings of its own in the middle of bursty traffic, with every scope
 	for i, sc := range []string{"", "w", "r", ""} {
@@ -730,6 +776,29 @@ func oracle(c Case, idx int, res *lib.Result) {
 			res.Violate(lib.Violation{Clause: clause, Case: idx, Key: clause, Replay: c,
 				Detail: fmt.Sprintf("%s connection with a 300 s token, client answering pings: the relay itself closed it %.1f s after it joined (%.0f s before its expiry); messages delivered to it before: %d",
 					c.Mode, float64(c.Dropped-c.TLo)/1e9, float64(E-c.Dropped)/1e9, len(c.DataAt))})
+		}
+		return
+	}
+	if c.PartnerClosed != 0 {
+		what := "partner"
+		if strings.HasPrefix(c.Via, "api-") {
+			what = "sibling-of-the-same-booking"
+		}
+		res.Violate(lib.Violation{Clause: "closed-before-expiry:" + what, Case: idx, Key: "closed-before-expiry:" + what, Replay: c,
+			Detail: fmt.Sprintf("%s/%s via %q: the OTHER connection of the topic (a 1 h token%s) was closed by the relay %.3f s after the probe joined (probe's own expiry: +%d s)",
+				c.Kind, c.Mode, c.Via, map[bool]string{true: " of the same booking id", false: ""}[strings.HasPrefix(c.Via, "api-")], float64(c.PartnerClosed-c.TLo)/1e9, c.ExpOff)})
+	}
+	if c.Mode == "stallevict" {
+		if c.EvictAt == 0 {
+			return // the eviction did not happen: nothing to judge (counted as a note)
+		}
+		if c.WatchUntil >= E+lateTol {
+			if !c.SockClosed {
+				bad("open-after-expiry", "evicted stalled reader: its socket was still open (writes still accepted) 2.2 s after its expiry")
+			}
+			if c.LastFrom > E+lateTol {
+				bad("traffic-after-expiry", fmt.Sprintf("evicted stalled reader: a message FROM it was relayed %.3f s after its expiry", float64(c.LastFrom-E)/1e9))
+			}
 		}
 		return
 	}
